@@ -63,6 +63,15 @@ def main():
             print(s["name"], "caught by", caught, "| own check exit:", table[s["name"]].get(s["property"], {}).get("exit"))
         json.dump(table, open(os.path.join(VERIF, "seeded", "MATRIX.json"), "w"), indent=1)
         return 0
+    if sys.argv[1] == "--patch":
+        # run checks against an arbitrary patch (e.g. a behaviour-preserving refactoring: no check may exit 1)
+        man = json.load(open(os.path.join(VERIF, "MANIFEST.json")))
+        pids = sys.argv[3:] or [c["property_id"] for c in man["checks"]]
+        pdir = os.path.dirname(os.path.abspath(sys.argv[2]))
+        res = run_seed(dict(name="patch", dir=pdir, property=None, also=[]), pids) if os.path.basename(sys.argv[2]) == "patch.diff" else None
+        for p_, r in sorted(res.items()):
+            print(p_, "exit", r["exit"], r.get("violated_obligations") or "", (r.get("undecided") or [""])[0][:160])
+        return 0
     pid = sys.argv[1]
     out = {}
     for s in seeds():
